@@ -598,6 +598,10 @@ If you're hoping to get instance specific labels this way and alert when some ta
 	case "label_replace", "label_join":
 		// One label added to the results.
 		s.Returns = promParser.ValueTypeVector
+		if v, ok := n.Args[2].(*promParser.StringLiteral); n.Func.Name == "label_replace" && ok && v.Val == "" {
+			// An empty replacement removes the label when the regexp matches, so it's not guaranteed to be there.
+			break
+		}
 		s = guaranteeLabel(s, n.Args[1].(*promParser.StringLiteral).Val)
 
 	case "pi":
